@@ -298,12 +298,12 @@ fn ld_request(emu: &mut Emu, rq: &Req, prefill: Option<&[u8]>, max_frames: usize
     // the caller: CALL 0x0556 in the printer buffer; the routine always leaves through SA/LD-RET,
     // which returns here with AF, IX and DE as LD-BYTES left them
     poke_bytes(emu, CALLER, &[0xCD, 0x56, 0x05]);
-    let done = run_to(emu, CALLER + 3, max_frames);
+    let (done, frames_taken) = run_to_count(emu, CALLER + 3, max_frames);
     let after: Vec<u8> = (0..span).map(|k| emu.peek(base.wrapping_add(k as u16))).collect();
     let cpu = emu.verif_cpu();
     json!({"ev":"ldbytes","req":{"a":rq.a,"carry":rq.carry as u8,"ix":rq.ix,"de":rq.de},
            "done":done,"carry":cpu.regs.get_flags() & 1,"ix":cpu.regs.get_ix(),"de":cpu.regs.get_de(),
-           "pc":cpu.regs.get_pc(),"base":base,"before":before,"after":after,"trapdiff":[]})
+           "pc":cpu.regs.get_pc(),"base":base,"before":before,"after":after,"trapdiff":[],"frames":frames_taken,"playing":false})
 }
 
 fn random_blocks_for_loader(r: &mut Rng) -> Vec<Vec<u8>> {
@@ -463,7 +463,8 @@ fn romload(out: &mut Out, r: &mut Rng, tapes: u64) {
             })
             .collect();
         let mut cfg = EmuCfg::new(m128);
-        cfg.fastload = false;
+        // fast loading enabled (the emulator's default) or not: a playing tape is read from its waveform either way
+        cfg.fastload = ti % 2 == 1;
         let mut emu = cfg.build();
         if m128 {
             page_rom1(&mut emu);
@@ -478,7 +479,9 @@ fn romload(out: &mut Out, r: &mut Rng, tapes: u64) {
             }
             let pre: Option<Vec<u8>> = if !rq.carry { Some(blk.iter().skip(1).cloned().collect()) } else { None };
             // each request is issued between blocks: the loader needs the whole pilot of this block
-            let ev = ld_request(&mut emu, &rq, pre.as_deref(), 50 * 12, r);
+            let mut ev = ld_request(&mut emu, &rq, pre.as_deref(), 50 * 12, r);
+            ev["playing"] = json!(true);
+            ev["m"] = json!(if m128 { 128 } else { 48 });
             out.ev(ev);
             // let the rest of this block and most of the pause pass before the next request:
             // wait until the EAR input has been quiet for a quarter of a second
